@@ -20,7 +20,7 @@ SPEC = {
     "lean_modules": ["Honeycomb.Props.C16", "Honeycomb.Props.C16Cross"],
     "required_theorems": ["C16_orientation_rejection_iff", "C16_orientation_accepts_iff_nodup", "C16_closed_loop_accepted",
                           "C16_repeated_origin_rejected", "C16_repeated_endpoint_rejected", "C16_grid_margins", "C16_grid_tight",
-                          "C16_crossings_sound", "C16_crossings_on_grid_lines", "C16_crossings_complete", "C16_crossings_sorted",
+                          "C16_crossings_sound", "C16_crossings_on_grid_lines", "C16_crossings_complete", "C16_crossings_sorted", "C16_crossings_count",
                           "C16_between_crossings_one_cell"],
     "trusted_base": [
         "Lean 4.33 kernel; axioms propext, Classical.choice, Quot.sound only",
@@ -62,8 +62,8 @@ SPEC = {
         "implementation, not proved",
         "compute_overlapping_grid: detection of vertices on grid lines and termination of the shift loop (the sizing "
         "formulas are proved for any shift < 1/2 cell: C16_grid_margins); step 1 (generate_intersection_data) is modelled and "
-        "proved for one segment over exact rationals under eps-general position (C16_crossings_*: sound, complete, sorted, one "
-        "cell between consecutive crossings); NOT proved: that f64 rounding preserves these (the tie is exact only on the "
+        "proved for one segment over exact rationals under eps-general position (C16_crossings_*: sound, complete, sorted, count = "
+        "number of pre-allocated slots, one cell between consecutive crossings); NOT proved: that f64 rounding preserves these (the tie is exact only on the "
         "exact family), the corner case IntersecCorner (outside general position), "
         "group_intersections_per_edge / compute_intersection_ids, generate_edge_data, insert_edges_in_map: not modelled "
         "(HashMap-ordered dart numbering, f64 epsilon bands); covered only by the end-to-end oracle",
